@@ -65,6 +65,14 @@ CAPS_QUICK = [
   {"njmax": 1},
   {"njmax": "fit-1"},
   {"njmax": "fit"},
+  # capacities that are multiples of the 16-row padding of the row arrays: an index just past njmax then leaves the array
+  # instead of landing in zero padding (every alignment of a cut contact block is reached by the fit-k values below)
+  {"njmax": 16},
+  {"njmax": 32},
+  {"njmax": 48},
+  {"njmax": "fit-2"},
+  {"njmax": "fit-3"},
+  {"njmax": "fit-5"},
   {"naconmax": 0},
   {"naconmax": 1},
   {"naconmax": "fit-1"},
